@@ -60,6 +60,26 @@ CHECKS = {
          "Generated configuration models are rendered to text with randomised layout inside the syntax MIT documents (comments, whitespace, CRLF, section order, unknown keys/sections, nested blocks, final-value marker, ports) and loaded by config.NewFromString: every modelled field must equal the model; single structural deletions must be rejected; ResolveRealm is compared with a reference resolver for every hostname over labels {a,b} to depth 5 against every subset of its relevant mapping keys (exhaustive); GetKDCs/GetKpasswdServers must return exactly the configured multiset with keys 1..n and leave the Config unchanged.",
          "Trusts ref/conf (each rendered file is first read back by the reference parser; failure there is inconclusive). Observe-only where MIT's documentation does not settle the case (on/off/nil booleans, repeated section headers, trailing comments after values, dot-less parent domains, invalid value spellings, kpasswd_server without port).",
          "5.C16"),
+ "C03": ("runtime monitor at the HTTP boundary under a virtual clock: handler / verification APIs vs lenient AP-REQ extractor + reference acceptor + session model",
+         "exploration",
+         "spnego.SPNEGOKRB5Authenticate is driven through httptest with ~56 000 Authorization header values per quick run (absent/other schemes/garbage, every framing of valid and defective reference-minted AP-REQs incl. AP-REP and KRB-ERROR mech tokens, empty and foreign mech lists, every prefix and per-byte substitutions of valid tokens, request sequences with and without working/failing session managers); the five token-verification APIs receive the same tokens directly. Soundness: the inner handler ran or an API reported success only if some AP-REQ found at any offset of the decoded header is accepted by the reference acceptor, and the context identity equals the ticket's sealed identity; refusals must be 401 + WWW-Authenticate: Negotiate (5xx only when the harness session store failed). Completeness is demanded only for canonical reference-encoded tokens.",
+         "Trusts ref/accept, ref/kmsg framing encoders and the lenient extractor (tries every 0x6e offset, BER tolerated, so it never demands more than the statement). Tokens accepted only under a framing-agnostic reading of mutated wrapper lengths are counted, not judged.",
+         "5.C03"),
+ "C09": ("runtime monitor with fault-injecting simulated KDC under a virtual clock: one named perturbation per reply, tagged from RFC 4120 3.1.5/3.3.4",
+         "exploration",
+         "A gokrb5 client (password and keytab credentials x six etypes x three pre-authentication policies x noaddresses) performs AS and TGS exchanges over loopback against a simulated KDC built only on the reference encoder/crypto; the KDC applies one perturbation to the otherwise correct reply (other key, other key usage, ciphertext bit flips incl. one per ciphertext byte, truncations, nonce, cname, crealm, sname, srealm, ticket realm, addresses, authtime/starttime at and beyond the skew, wrong message type, stale reply) or answers each KRB-ERROR code 1..93 and an unknown one. Rejecting perturbations must fail the exchange, neutral ones and the unperturbed reply must succeed, KRB-ERROR codes must be recoverable from the returned error.",
+         "Trusts simkdc (ref/kmsg, ref/kcrypto). Observe-only: outer ticket realm/sname of AS replies, sname inside TGS replies, unrequested caddr in AS replies, KRB-ERROR 68. Usage perturbations 3<->8 skipped for rc4-hmac (RFC 4757 aliases).",
+         "5.C09"),
+ "C10": ("runtime monitor over client histories under a virtual clock: strictly decoded KDC request log vs configuration; returned (ticket,key) vs KDC issue log; round-trip bounds",
+         "exploration",
+         "Seeded histories of {Login, AffirmLogin, GetServiceTicket, GetCachedTicket, advance, Destroy+re-create} run against a simulated multi-realm KDC (single realm, mapped cross-realm, referral chains 0..8, referral loop) with clock advances drawn from the interesting instants of the tickets issued so far. Every request the KDC receives is decoded with the strict reference decoder and compared with what the configuration dictates (etypes, kdc-options, till, rtime, addresses, names, PA-ENC-TIMESTAMP under usage 1 with the current virtual time, PA-TGS-REQ ticket/authenticator usage 7/body checksum usage 6); every returned (ticket, key) must be a pair of the KDC issue log for that SPN and valid at the virtual time of the return; calls must succeed within 8 (24 on referral topologies) KDC round trips.",
+         "Trusts simkdc. A live client is re-created before the clock would enter the regime where its background TGT refresh degenerates to zero-length timers (renew-till of the home TGT; 5/6 lifetime of cross-realm TGTs): a virtual clock cannot advance through that burst. Failures after a KDC referral loop back into the home realm are observed, not judged.",
+         "5.C10"),
+ "C13": ("differential runtime monitor: gokrb5 Marshal/Unmarshal vs independent strict DER decoder/encoder for every message type, incl. after decrypt/verify operations",
+         "exploration",
+         "For 17 message and structure types, generated values (optionals present/absent, boundary integers, 0..4 name components, strings forcing 1-4 length octets, every flag bit) go gokrb5 Marshal -> gokrb5 Unmarshal (value equality) and gokrb5 Marshal -> reference strict decoder (tags, string types, optional presence, flag numbering, minimal lengths, no trailing bytes, same field values); reference-encoded bytes go gokrb5 Unmarshal -> Marshal (byte equality when no optional carries a zero value); the same after Ticket.DecryptEncPart, APReq.Verify, ASRep/TGSRep/KRBPriv decryption; length-octet helpers for all lengths (0..2^16 + 2^k+-1 quick, 0..2^24 thorough).",
+         "Trusts ref/kmsg + ref/der (self-tested by decoding and byte-identically re-encoding 35 MIT vectors). Observe-only: optionals present with zero value, NegTokenResp without negState, EncTGSRepPart tag 26 re-encoding, decode-only/encode-only types.",
+         "5.C13"),
 }
 
 NOT_YET = "check not built yet in this revision of /verif (construction in progress, see DESIGN.md section 9)"
